@@ -109,6 +109,13 @@ def answer (w : World) (q : Q) (path : String) (args : List String) : Except Str
           | some (some i) => "item=" ++ showItem i) es)
       else .ok ("g=" ++ showList (fun e => showOptItem (w.viewGet q e)) es)
     | none => .error "many_* needs es"
+  | "arch" =>
+    -- `Archetype::access::<Q>()` of every archetype (hidden snapshot types are rendered 110 by the harness)
+    let accS (ts : List Nat) : String := match q.access ts with
+      | none => "x"
+      | some a => toString a
+    let l := sortBy (fun a b => natsLt a b) (w.archs.toList.map (fun ar => sortNat ar.types))
+    .ok ("aa=[" ++ ";".intercalate (l.map (fun ts => showNats ts ++ ":" ++ accS ts)) ++ "]")
   | "sat" =>
     match h with
     | some e => .ok (match w.satisfiesQ q e with
@@ -197,6 +204,21 @@ def specCheck (s : Spec.SpecW) (q : Q) (path : String) (args : List String) (rhs
     match h with
     | some e => if rhs.trimAscii.toString == one e then .ok () else .error s!"single-entity query differs from the abstract map: spec={one e}"
     | none => .error "needs h"
+  | "arch" =>
+    -- every reported entry `types:access` must be what the query means for that component set
+    match field toks "aa" with
+    | some aa =>
+      let inner := ((aa.drop 1).toString.dropEnd 1).toString
+      let entries := if inner == "" then [] else inner.splitOn ";"
+      let bad := entries.find? (fun en => match en.splitOn ":" with
+        | [tsS, a] => match nats? tsS with
+          | some ts => a != (match q.access (ts.filter (· < 100)) with | none => "x" | some k => toString k)
+          | none => true
+        | _ => true)
+      match bad with
+      | some en => .error s!"Archetype::access/satisfies/has_dynamic disagree with the query's meaning on {en}"
+      | none => .ok ()
+    | none => .error "arch path needs aa="
   | "sat" =>
     match h with
     | some e =>
